@@ -21,10 +21,10 @@ type pmsg struct {
 }
 
 func leafFields() []*pj.Field {
-	return []*pj.Field{pj.F("a", 1, pj.Int32), pj.F("b", 2, pj.String), pj.F("c", 3, pj.Sint64)}
+	return []*pj.Field{pj.F("a", 1, pj.Int32), pj.F("b", 2, pj.String), pj.F("c", 3, pj.Sint64), pj.F("blob", 4, pj.Bytes)}
 }
 func midFields(leaf string) []*pj.Field {
-	return []*pj.Field{pj.FM("leaf", 1, leaf), pj.FM("leaves", 2, leaf).Repeated(), pj.FM("m", 3, leaf).MapOf(pj.String), pj.F("x", 4, pj.Int64), pj.F("nums", 5, pj.Int32).Repeated(), pj.F("tail", 16, pj.Fixed32)}
+	return []*pj.Field{pj.FM("leaf", 1, leaf), pj.FM("leaves", 2, leaf).Repeated(), pj.FM("m", 3, leaf).MapOf(pj.String), pj.F("x", 4, pj.Int64), pj.F("nums", 5, pj.Int32).Repeated(), pj.F("blob", 6, pj.Bytes), pj.F("tail", 16, pj.Fixed32)}
 }
 func rootFields(mid string) []*pj.Field {
 	return []*pj.Field{pj.F("i", 1, pj.Int32), pj.F("s", 2, pj.String), pj.FM("mid", 3, mid), pj.FM("mids", 4, mid).Repeated(), pj.FM("mm", 5, mid).MapOf(pj.Int32), pj.F("raw", 6, pj.Bytes), pj.F("strs", 7, pj.String).Repeated(), pj.F("d", 8, pj.Double), pj.F("im", 9, pj.Int64).MapOf(pj.Int32), pj.F("big", 2047, pj.Uint64)}
@@ -81,9 +81,24 @@ func pprogram(e pedit) *pj.Program {
 }
 
 // fill builds a From message with n elements per container.
+// blobSize > 0: payload of that many bytes in every Leaf.blob / Mid.blob (length-prefix boundaries of the
+// enclosing messages: 127/128, 16383/16384, 2^21)
+var blobSize int
+
+func blob(k int) []byte {
+	b := make([]byte, blobSize)
+	for i := range b {
+		b[i] = byte(i*7 + k)
+	}
+	return b
+}
+
 func fillLeaf(md protoreflect.MessageDescriptor, k int) protoreflect.Message {
 	m := dynamicpb.NewMessage(md)
 	f := md.Fields()
+	if blobSize > 0 && k%2 == 1 {
+		m.Set(f.ByName("blob"), protoreflect.ValueOfBytes(blob(k)))
+	}
 	m.Set(f.ByName("a"), protoreflect.ValueOfInt32(int32(100+k)))
 	m.Set(f.ByName("b"), protoreflect.ValueOfString(fmt.Sprintf("leaf-%d", k)))
 	if k%2 == 1 {
@@ -108,6 +123,9 @@ func fillMid(md protoreflect.MessageDescriptor, n, k int) protoreflect.Message {
 		l.Append(protoreflect.ValueOfMessage(fillLeaf(leafMD, k*10+i)))
 		mp.Set(protoreflect.ValueOfString(fmt.Sprintf("k%d", i)).MapKey(), protoreflect.ValueOfMessage(fillLeaf(leafMD, k*10+5+i)))
 		nums.Append(protoreflect.ValueOfInt32(int32(i*150 - 1)))
+	}
+	if blobSize > 0 {
+		m.Set(f.ByName("blob"), protoreflect.ValueOfBytes(blob(k)))
 	}
 	m.Set(f.ByName("x"), protoreflect.ValueOfInt64(int64(k)<<40+7))
 	m.Set(f.ByName("tail"), protoreflect.ValueOfUint32(0xfffffff0+uint32(k)))
@@ -224,6 +242,7 @@ func protoGroups() []string {
 type pcdesc struct {
 	Edit   string `json:"edit"`
 	N      int    `json:"container_size"`
+	Blob   int    `json:"blob_bytes"`
 	Schema string `json:"schema"`
 }
 
@@ -237,8 +256,18 @@ func protoEnumerate(group int, yield func(core.Case) bool) {
 		for n := 0; n <= 2; n++ {
 			e, n := e, n
 			c := core.Case{Tag: "proto," + e.kind,
-				Desc: func() interface{} { return pcdesc{e.name, n, pprogram(e).SourceDump()} },
-				Run:  func() core.Result { return runProto(e, n) }}
+				Desc: func() interface{} { return pcdesc{e.name, n, 0, pprogram(e).SourceDump()} },
+				Run:  func() core.Result { return runProto(e, n, 0) }}
+			if !yield(c) {
+				return
+			}
+		}
+		// payload sizes that move the enclosing messages across the 1/2/3/4-byte length-prefix boundaries
+		for _, b := range []int{100, 130, 16300, 16500, 2100000} {
+			e, b := e, b
+			c := core.Case{Tag: "proto," + e.kind + ",blob",
+				Desc: func() interface{} { return pcdesc{e.name, 1, b, pprogram(e).SourceDump()} },
+				Run:  func() core.Result { return runProto(e, 1, b) }}
 			if !yield(c) {
 				return
 			}
@@ -246,8 +275,10 @@ func protoEnumerate(group int, yield func(core.Case) bool) {
 	}
 }
 
-func runProto(e pedit, n int) core.Result {
-	r := core.Result{Class: "ok", Key: fmt.Sprintf("proto|%s|%d", e.name, n)}
+func runProto(e pedit, n int, blobBytes int) core.Result {
+	blobSize = blobBytes
+	defer func() { blobSize = 0 }()
+	r := core.Result{Class: "ok", Key: fmt.Sprintf("proto|%s|%d|%d", e.name, n, blobBytes)}
 	prog := pprogram(e)
 	c := pj.Compile(prog)
 	if c.Err != nil {
@@ -264,9 +295,12 @@ func runProto(e pedit, n int) core.Result {
 	want := projectPB(src, toMD)
 	var to *dproto.TypeDescriptor = c.Out
 	trig := fmt.Sprintf("proto,%s,%s", e.kind, e.level)
+	if blobBytes > 0 {
+		trig += ",blob"
+	}
 	for _, native := range []bool{false, true} {
 		for _, disallow := range []bool{false, true} {
-			what := fmt.Sprintf("proto %s n=%d opts={native:%v disallowUnknown:%v}", e.name, n, native, disallow)
+			what := fmt.Sprintf("proto %s n=%d blob=%d opts={native:%v disallowUnknown:%v}", e.name, n, blobBytes, native, disallow)
 			var out []byte
 			var err error
 			pi := core.Catch(func() {
@@ -281,15 +315,15 @@ func runProto(e pedit, n int) core.Result {
 			default:
 				got, derr := pj.Unmarshal(toMD, out)
 				if derr != nil {
-					r.Add("proto.Value.MarshalTo|"+trig+"|malformed", "%s: output %x rejected by the reference implementation: %v", what, out, derr)
+					r.Add("proto.Value.MarshalTo|"+trig+"|malformed", "%s: output (%d bytes) %x.. rejected by the reference implementation: %v", what, len(out), out[:minInt(len(out), 64)], derr)
 					break
 				}
 				if hasUnknown(got) {
-					r.Add("proto.Value.MarshalTo|"+trig+"|unknown-fields-kept", "%s: output carries fields that are not in the target schema: %x", what, out)
+					r.Add("proto.Value.MarshalTo|"+trig+"|unknown-fields-kept", "%s: output carries fields that are not in the target schema: %x..", what, out[:minInt(len(out), 200)])
 					break
 				}
 				if d := pj.DiffMsg(want, got, "$"); d != "" {
-					r.Add("proto.Value.MarshalTo|"+trig+"|value-differs", "%s: %s\nin  %x\nout %x", what, d, in, out)
+					r.Add("proto.Value.MarshalTo|"+trig+"|value-differs", "%s: %s\nin  %x..\nout %x..", what, d, in[:minInt(len(in), 200)], out[:minInt(len(out), 200)])
 				}
 			}
 		}
@@ -300,4 +334,11 @@ func runProto(e pedit, n int) core.Result {
 		r.Class = "ok:proto-" + e.kind
 	}
 	return r
+}
+
+func minInt(a, b int) int {
+	if a < b {
+		return a
+	}
+	return b
 }
